@@ -661,6 +661,11 @@ def binop(ctx):
             okx = okg and okp
             if not okx:
                 why += "; entries must be pushed for every pair unless the guard is unsatisfiable, with value op(a, b)"
+            # every pair: nothing leaves the two loops early (a `continue` past an unsatisfiable pair is the skip above; `?` leaves the function)
+            jumps = [x for x in walk(outer["body"]) if x.get("k") in ("break", "return")]
+            if okx and jumps:
+                okx = False
+                why = "the cross product is cut short by `%s`: pairs after it are never combined, so the result no longer covers every valuation" % show(jumps[0])[:40]
     ctx.inst("R20.4", "apply_bin_op:cross-product", okx, cross_op["sp"] if cross_op else f["span"], "the remaining entries must always be combined pairwise: %s" % why, sample=why)
 
 
